@@ -307,6 +307,15 @@ def reverse_map(ctx, ents):
                     "(a name without ';' swallows following letters and is not decoded in attribute values)" % (table.get(0xE9), got, exp),
                     detail={"entry": table.get(0xE9), "written": got})
     ctx.r.extra["reverse_map_entries"] = len(emap)
+    # the numeric fallback &#x<hex>; is read back through the numeric-reference rules: code points that those rules remap
+    # (the C1 table) or refuse cannot be written as any reference at all
+    rep = ctx.ce.const("constants.py", "replacementCharacters")
+    lost = sorted(cp for cp, ch in rep.items() if cp not in emap and ch != chr(cp) and cp >= 0x80)
+    r.check("R14.5", not lost, "numeric-fallback-remapped[C1]", "serializer.py:%d" % (emit_loop[0].lineno if len(emit_loop) == 1 else f.node.lineno),
+            "an unencodable U+%04X..U+%04X (%d code points of the C1 remapping table without a named reference) is written as "
+            "&#x%x; etc., which the numeric-reference rules decode to a different character (e.g. U+0080 -> U+20AC)"
+            % (lost[0], lost[-1], len(lost), lost[0]) if lost else "", {"code_points": ["U+%04X" % c for c in lost]},
+            detail={"remapped_without_name": len(lost)})
 
 
 def contexts(ctx):
